@@ -106,6 +106,9 @@ def run(tier, seed):
                              fls(r["v"]), fls(r["lv"]), fls(lam), cxss(Cm), fl(dt), cxss(r["rho_b"]), cxss(r["W"]), cxss(r["rho_a"])))
             meta.append(dict(info, step=k))
             res.case(("step", mname, integ, kind, dt, k, it), True, dict(info, step=k, rho_before=[[z.real, z.imag] for z in r["rho_b"][0]]) if k == 0 else None)
+    # an A-FSSH collapse (also one landing in the same step as an accepted hop) replaces rho by the pure active state
+    import p11
+    p11.collapse_probe(res, rng, tier, bad)
     failing, errors = run_case_check("C02", PRELUDE, "case02", "chk02", cases, per_file=6, timeout=1500)
     for e in errors:
         res.violation("model evaluation failed (coqc)", dict(kind="coqc-error", log=e, no_failing_input_found=True))
